@@ -70,7 +70,7 @@ pub fn plan(prop: &str, seed: u64, index: u64, thorough: bool) -> RunPlan {
     let npoints = rng.below(5);
     let points: Vec<u64> = (0..npoints).map(|_| rng.range(1, 400)).collect();
     let prio: Vec<u32> = (0..n_clients).map(|_| rng.below(100) as u32 + 10).collect();
-    let stall_ppm = if rng.chance(1, 2) { 0 } else { [5_000u32, 20_000, 60_000, 150_000][rng.below(4)] };
+    let stall_ppm = if rng.chance(1, 2) { 0 } else { [2_000u32, 8_000, 25_000, 60_000][rng.below(4)] };
     RunPlan {
         n_clients,
         ops_per_client,
